@@ -1,5 +1,5 @@
 """C16 - lookup functions agree with a linear-scan definition (pycel.lib.lookup)."""
-from pyvc.spec import (Array, Bool, Const, Contract, Float, Int, Lemma, NoneT,
+from pyvc.spec import (AbstractKey, Array, Bool, Const, Contract, Float, Int, Lemma, NoneT, Record,
                        Str, Tuple, Union, forall_range, implies, same_call)
 
 ERROR_CODES = ('#NULL!', '#DIV/0!', '#VALUE!', '#REF!', '#NAME?', '#NUM!', '#N/A')
@@ -60,7 +60,8 @@ def candidate(x, v):
 def pre_match(lookup_value, lookup_array, match_type):
     # text lookups with wildcards are matched by a compiled regular expression: bounded only
     if isinstance(lookup_value, str):
-        return '*' not in lookup_value and '?' not in lookup_value and not is_err(lookup_value)
+        low = lookup_value.lower()      # what the code tests for wildcards is the lower-cased search text
+        return '*' not in low and '?' not in low and not is_err(lookup_value)
     return True
 
 
@@ -203,12 +204,251 @@ scalar = Union(NoneT(), Bool(), Int(), Float(), Str())
 match_result = Union(Int(), Const(NA_ERROR))
 mtypes = Union(Const(0), Const(1), Const(-1), Const(True), Const(False))
 
-MATCH_CONTRACT = Contract(MATCH, 'C16',
-                          params=dict(lookup_value=scalar, lookup_array=Array(1, kind='list'), match_type=mtypes),
-                          requires=[pre_match], ensures=[post_match_exact, post_match_range],
-                          returns=match_result, klass='BOUNDED',
-                          notes='three loops and a bisect over an array of symbolic length: assumed here, '
-                                'checked by the bounded stand-in (all vectors up to length 6 over a mixed pool)')
+# -- _match itself: loops cut at invariants over its locals; bisect_right by its own (proved) contract --------------
+
+BISECT = 'bisect:bisect_right'
+EXCELCMP = 'pycel.excelutil:ExcelCmp'
+
+
+def wf_cmp(x):
+    """x is the ordering key of a number, a text or a logical (what ExcelCmp(v) builds for a non-error v)"""
+    if x.cmp_type == 0:
+        return isinstance(x.value, (int, float)) and not isinstance(x.value, bool)
+    if x.cmp_type == 1:
+        return isinstance(x.value, str) and x.empty == ''
+    if x.cmp_type == 2:
+        return isinstance(x.value, bool) and x.empty is False
+    return False
+
+
+def pre_bisect(a, x, lo, hi):
+    return 0 <= lo and hi <= len(a)
+
+
+def inv_bisect(a, x, lo, hi, lo_, hi_):
+    """the window only shrinks; left of it x is not below its neighbour, right of it x is below the first cell"""
+    if not (lo <= lo_ and hi_ <= hi and (lo_ <= hi_ or (lo_ == lo and hi_ == hi))):
+        return False
+    if lo_ > lo and x < a[lo_ - 1]:
+        return False
+    if hi_ < hi and not (x < a[hi_]):
+        return False
+    return True
+
+
+def var_bisect(a, x, lo, hi, lo_, hi_):
+    return hi_ - lo_ if hi_ > lo_ else 0
+
+
+def post_bisect(a, x, lo, hi, result):
+    """facts that hold on ANY data (sorted or not): the answer lies in the window, x is not below the cell to its left
+    (when the search moved right at all) and is below the cell at it (when the search moved left at all)"""
+    if lo >= hi:
+        return result == lo
+    if not (lo <= result <= hi):
+        return False
+    if result > lo and x < a[result - 1]:
+        return False
+    if result < hi and not (x < a[result]):
+        return False
+    return True
+
+
+def key_dom():
+    return Union(Record(EXCELCMP, dict(cmp_type=Const(0), value=Union(Int(), Float()), empty=Const(0.0))),
+                 Record(EXCELCMP, dict(cmp_type=Const(1), value=Str(), empty=Const(''))),
+                 Record(EXCELCMP, dict(cmp_type=Const(2), value=Bool(), empty=Const(False))))
+
+
+BISECT_CONTRACT = Contract(
+    BISECT, 'C16', name='bisect.bisect_right',
+    params=dict(a=Array(1, kind='list', min_len=0), x=AbstractKey(), lo=Int(), hi=Int()),
+    requires=[pre_bisect], ensures=[post_bisect], returns=Int(),
+    invariants={0: dict(inv=[inv_bisect], locals=('lo', 'hi'), vars=dict(lo=Int(), hi=Int()), temps=('mid',),
+                        variant=var_bisect)},
+    notes='Lib/bisect.py of the interpreter that runs pycel, read as source on every run (A-CBISECT: the C accelerator '
+          'computes the same function); proved for EVERY key whose `<` against a cell is a pure function of that cell '
+          '(uninterpreted), so in particular for ExcelCmp, whose real __lt__ gives the clauses their meaning at the call')
+
+
+def inv_lo(lookup_value, lookup_array, match_type, lo):
+    return 0 <= lo <= len(lookup_array) and forall_range(0, lo, lambda j: lookup_array[j] is None)
+
+
+def var_lo(lookup_value, lookup_array, match_type, lo):
+    return len(lookup_array) - lo
+
+
+def inv_hi(lookup_value, lookup_array, match_type, hi):
+    return 0 <= hi <= len(lookup_array) and forall_range(hi, len(lookup_array), lambda j: lookup_array[j] is None)
+
+
+def var_hi(lookup_value, lookup_array, match_type, hi):
+    return hi
+
+
+def inv_backoff(lookup_value, lookup_array, match_type, result):
+    return 0 <= result <= len(lookup_array)
+
+
+def var_backoff(lookup_value, lookup_array, match_type, result):
+    return result
+
+
+def inv_scan(lookup_value, lookup_array, match_type, result, k):
+    """k cells scanned.  Exact match: nothing found yet means none of them equals v.  Descending match: what is
+    noted is a scanned position holding a comparable value."""
+    v = lookup_key(lookup_value)
+    r = result[0]
+    if match_type == 0:
+        return r == NA_ERROR and forall_range(
+            0, k, lambda j: not (candidate(lookup_array[j], v) and key_eq(cell_key(lookup_array[j]), v)))
+    if isinstance(r, str):
+        return r == NA_ERROR
+    return 1 <= r <= k and candidate(lookup_array[r - 1], v)
+
+
+def havoc_noted(vr, interp, env):
+    """the position noted so far (result[0], written by the closure `compare`): any position or #N/A"""
+    from pyvc.vc import build_value, pick_alt
+    v, _ = build_value(vr.world, pick_alt(vr.world, match_result), interp.ex.fresh_name('noted'))
+    env.lookup('result')[0] = v
+
+
+MATCH_CONTRACT = Contract(
+    MATCH, 'C16',
+    params=dict(lookup_value=scalar, lookup_array=Array(1, kind='list', min_len=0), match_type=mtypes),
+    requires=[pre_match], ensures=[post_match_exact, post_match_range],
+    returns=match_result, modular=[BISECT], abstract_str_order=True, fast_branch=True,
+    invariants={0: dict(inv=[inv_scan], locals=('result',), index=True, havoc=havoc_noted),
+                1: dict(inv=[inv_lo], locals=('lo',), vars=dict(lo=Int()), variant=var_lo),
+                2: dict(inv=[inv_hi], locals=('hi',), vars=dict(hi=Int()), variant=var_hi),
+                3: dict(inv=[inv_backoff], locals=('result',), vars=dict(result=Int()), variant=var_backoff)},
+    notes='the binary-search branch uses bisect_right by its contract; the three while-loops and the scan are cut at '
+          'invariants over the function\'s locals (vectors of any length)')
+
+# -- _match on sorted data: the position holds the largest value <= v (type 1) / the smallest value >= v (type -1) ----
+#
+# "Sorted in Excel order" without an existential: the contract has two ghost parameters first / last (not passed to
+# the code) that delimit the data; blanks only pad it (Excel sorts blanks to the end).  Pairwise formulation, so
+# that no induction is needed.  Error values are not data (their place in the order is not what the property is about).
+
+def nonblank_lt(a, b):
+    return excel_lt(a, b)
+
+
+def pre_sorted_asc(lookup_value, lookup_array, match_type, first, last):
+    n = len(lookup_array)
+    return (pre_match(lookup_value, lookup_array, match_type) and 0 <= first <= last <= n
+            and forall_range(0, first, lambda j: lookup_array[j] is None)
+            and forall_range(last, n, lambda j: lookup_array[j] is None)
+            and forall_range(first, last, lambda j: lookup_array[j] is not None and not is_err(lookup_array[j]))
+            and forall_range(first, last, lambda i: forall_range(
+                i + 1, last, lambda j: not nonblank_lt(lookup_array[j], lookup_array[i]))))
+
+
+def post_sorted_asc(lookup_value, lookup_array, match_type, first, last, result):
+    """the answer holds a value of v's type that is <= v, and no cell of v's type that is <= v holds a larger one;
+    #N/A exactly when there is no such cell"""
+    v = lookup_key(lookup_value)
+    if isinstance(result, str):
+        return result == NA_ERROR and forall_range(
+            first, last, lambda j: not (same_type(lookup_array[j], v) and key_le(lookup_array[j], v)))
+    if not (first < result <= last):
+        return False
+    x = lookup_array[result - 1]
+    if not (same_type(x, v) and key_le(x, v)):
+        return False
+    return forall_range(first, last, lambda j: not (same_type(lookup_array[j], v) and key_le(lookup_array[j], v))
+                        or key_le(lookup_array[j], x))
+
+
+def inv_lo_s(lookup_value, lookup_array, match_type, first, last, lo):
+    return 0 <= lo <= len(lookup_array) and forall_range(0, lo, lambda j: lookup_array[j] is None)
+
+
+def var_lo_s(lookup_value, lookup_array, match_type, first, last, lo):
+    return len(lookup_array) - lo
+
+
+def inv_hi_s(lookup_value, lookup_array, match_type, first, last, hi):
+    return 0 <= hi <= len(lookup_array) and forall_range(hi, len(lookup_array), lambda j: lookup_array[j] is None)
+
+
+def var_hi_s(lookup_value, lookup_array, match_type, first, last, hi):
+    return hi
+
+
+def inv_backoff_s(lookup_value, lookup_array, match_type, first, last, result, result0):
+    """backing off from the insertion point result0: everything skipped is of another type (or an error value)"""
+    v = lookup_key(lookup_value)
+    return 0 <= result <= result0 and forall_range(result, result0, lambda j: not candidate(lookup_array[j], v))
+
+
+def var_backoff_s(lookup_value, lookup_array, match_type, first, last, result, result0):
+    return result
+
+
+MATCH_SORTED_ASC = Contract(
+    MATCH, 'C16', name='_match[sorted ascending]',
+    # text lookups: the same obligations did not finish within 40 minutes (sequence theory): bounded stand-in only
+    params=dict(lookup_value=Union(NoneT(), Bool(), Int(), Float()), lookup_array=Array(1, kind='list', min_len=0),
+                match_type=Union(Const(1), Const(True)), first=Int(), last=Int()),
+    requires=[pre_sorted_asc], ensures=[post_sorted_asc], tier='thorough',
+    returns=match_result, modular=[BISECT], abstract_str_order=True, fast_branch=True,
+    invariants={1: dict(inv=[inv_lo_s], locals=('lo',), vars=dict(lo=Int()), variant=var_lo_s),
+                2: dict(inv=[inv_hi_s], locals=('hi',), vars=dict(hi=Int()), variant=var_hi_s),
+                3: dict(inv=[inv_backoff_s], locals=('result',), entry=('result',), vars=dict(result=Int()),
+                        variant=var_backoff_s)},
+    notes='first / last are ghost parameters (the extent of the data between the padding blanks)')
+
+
+def pre_sorted_desc(lookup_value, lookup_array, match_type):
+    n = len(lookup_array)
+    return (pre_match(lookup_value, lookup_array, match_type)
+            and forall_range(0, n, lambda j: not is_err(lookup_array[j]))
+            and forall_range(0, n, lambda i: forall_range(
+                i + 1, n, lambda j: not excel_lt(cell_key(lookup_array[i]), cell_key(lookup_array[j])))))
+
+
+def post_sorted_desc(lookup_value, lookup_array, match_type, result):
+    """the answer holds a value of v's type that is >= v, and no cell of v's type that is >= v holds a smaller one"""
+    v = lookup_key(lookup_value)
+    n = len(lookup_array)
+    if isinstance(result, str):
+        return result == NA_ERROR and forall_range(
+            0, n, lambda j: not (same_type(cell_key(lookup_array[j]), v) and key_le(v, cell_key(lookup_array[j]))))
+    if not (1 <= result <= n):
+        return False
+    x = cell_key(lookup_array[result - 1])
+    if not (same_type(x, v) and key_le(v, x)):
+        return False
+    return forall_range(0, n, lambda j: not (same_type(cell_key(lookup_array[j]), v)
+                                             and key_le(v, cell_key(lookup_array[j])))
+                        or key_le(x, cell_key(lookup_array[j])))
+
+
+def inv_scan_desc(lookup_value, lookup_array, match_type, result, k):
+    """k cells scanned without stopping: every cell of v's type among them is strictly above v, and what is noted
+    is the last of them"""
+    v = lookup_key(lookup_value)
+    r = result[0]
+    if not forall_range(0, k, lambda j: not candidate(lookup_array[j], v) or (
+            key_le(v, cell_key(lookup_array[j])) and not key_eq(cell_key(lookup_array[j]), v))):
+        return False
+    if isinstance(r, str):
+        return r == NA_ERROR and forall_range(0, k, lambda j: not candidate(lookup_array[j], v))
+    return (1 <= r <= k and candidate(lookup_array[r - 1], v)
+            and forall_range(r, k, lambda j: not candidate(lookup_array[j], v)))
+
+
+MATCH_SORTED_DESC = Contract(
+    MATCH, 'C16', name='_match[sorted descending]',
+    params=dict(lookup_value=scalar, lookup_array=Array(1, kind='list', min_len=0), match_type=Const(-1)),
+    requires=[pre_sorted_desc], ensures=[post_sorted_desc], tier='thorough',
+    returns=match_result, abstract_str_order=True, fast_branch=True,
+    invariants={0: dict(inv=[inv_scan_desc], locals=('result',), index=True, havoc=havoc_noted)})
+
 
 CONTRACTS = [
     Contract(L + 'vlookup', 'C16',
@@ -250,7 +490,11 @@ CONTRACTS.append(
 
 # -- lemma: VLOOKUP on a table = HLOOKUP on its transpose (from the two contracts) -------------------------------
 
-ASSUMED = [MATCH_CONTRACT]
+CONTRACTS.append(BISECT_CONTRACT)
+CONTRACTS.append(MATCH_SORTED_ASC)
+CONTRACTS.append(MATCH_SORTED_DESC)
+CONTRACTS.append(MATCH_CONTRACT)      # last: the one callers use modularly
+ASSUMED = []
 
 LEMMAS = []
 LEVEL = 'other'
@@ -280,7 +524,7 @@ def wildcard_match(pattern, text):
     return m(0, 0)
 
 
-POOL = [None, 1, 2, 2.0, 5, 'a', 'B', 'abc', 'That', 'Thats', True, False, '#N/A']
+POOL = [None, -5, -1, 1, 2, 2.0, 5, 'a', 'B', 'abc', 'That', 'Thats', True, False, '#N/A']
 
 
 def bounded(tier, seed, R):
@@ -294,8 +538,8 @@ def bounded(tier, seed, R):
               '(blank, ints, int-valued float, text incl. case variants, logicals, an error value) x lookup values '
               'x match types; sorted-data semantics of types 1 / -1 on every sorted vector; wildcard lookups against '
               'an independent matcher; VLOOKUP = HLOOKUP on the transpose, LOOKUP/MATCH/INDEX contracts on random tables')
-    pool = POOL if thorough else [None, 1, 2.0, 5, 'a', 'B', 'abc', True, '#N/A']
-    lookups = [None, 0, 1, 2, 3, 5, 9, 'a', 'A', 'b', 'abc', 'zz', True, False]
+    pool = POOL if thorough else [None, -3, 1, 2.0, 5, 'a', 'B', 'abc', True, '#N/A']
+    lookups = [None, -4, -3, 0, 1, 2, 3, 5, 9, 'a', 'A', 'b', 'abc', 'zz', True, False]
     R.bound = f'vectors of length 0..{maxlen} over {len(pool)} values x {len(lookups)} lookups x 3 match types'
     for n in range(0, maxlen + 1):
         for arr in itertools.product(pool, repeat=n):
@@ -354,14 +598,26 @@ def bounded(tier, seed, R):
 
 
 LEVEL = 'other'
-EXPLANATION = ('Mixed. PROVED (SMT, tables and vectors of ANY size): VLOOKUP, HLOOKUP, MATCH, array-form LOOKUP and '
-               'INDEX(row, col) over symbolic arrays of dynamically typed cells: each returns the cell INDEX would return at '
-               'the position _match reports for the very vector the property names (first column / first row / longer '
-               'edge) - the arguments of the internal call are proved equal to that vector pointwise - and #VALUE!/#REF! for '
-               'non-positive / too large indices, never a wrapped-around cell; these proofs use only the CONTRACT of _match '
-               '(result in 1..n holding a comparable value, exact match = first equal position). That contract itself is '
-               'ASSUMED, not discharged (three while-loops and a bisect over an array of symbolic length): it is checked by '
-               'the bounded stand-in on every vector up to length 4 (5 thorough) over a mixed pool, together with the '
-               'sorted-data semantics of match types 1 / -1, wildcards, and VLOOKUP = HLOOKUP of the transpose.')
-ASSUMPTIONS = ['A-SUBSET', 'contract of pycel.lib.lookup:_match (assumed; bounded check only)',
-               'A-CASE / A-STRORDER for text keys']
+EXPLANATION = ('Mixed. PROVED (SMT, tables and vectors of ANY size): _match itself - the binary-search branch (two while-loops '
+               'that strip padding blanks, bisect_right, the back-off loop across type boundaries) and the linear scans of '
+               'match types 0 / -1 (a for-loop with break whose closure writes the noted position), each loop cut at an '
+               'invariant over the function\'s own locals with a variant: the answer is #N/A or a position inside the vector '
+               'holding a non-error value of the lookup value\'s type (never a blank for type 1), and for type 0 it is the '
+               'FIRST position whose value equals v (type-strict, case-insensitive) or #N/A when there is none; '
+               'bisect.bisect_right is verified from the source of Lib/bisect.py of the interpreter that runs pycel, for '
+               'every key with a pure `<` (window, left-neighbour and right-neighbour facts that hold on unsorted data too). '
+               'VLOOKUP, HLOOKUP, MATCH, array-form LOOKUP and INDEX(row, col) over symbolic tables: each returns the cell '
+               'INDEX would return at the position _match reports for the very vector the property names (the arguments of '
+               'the internal call are proved equal to it pointwise), #VALUE!/#REF! for non-positive / too large indices, '
+               'never a wrapped-around cell; these use only the contract of _match. THOROUGH TIER ONLY (minutes per scenario): '
+               'on data sorted in Excel order (ascending between padding blanks / descending with blanks read as 0, pairwise '
+               'formulation, no error values) type 1 answers a position holding the largest value <= v of v\'s type and type '
+               '-1 one holding the smallest value >= v, #N/A exactly when there is none (type 1 with a TEXT lookup value did not finish in 40 minutes: bounded only). BOUNDED (native): wildcard lookups '
+               '(compiled regular expressions) against an independent matcher; the same contracts and the sorted-data '
+               'semantics on every vector up to length 4 (5 thorough) over a mixed pool incl. negative numbers; VLOOKUP = '
+               'HLOOKUP of the transpose.')
+ASSUMPTIONS = ['A-SUBSET', 'A-CBISECT: the C accelerator _bisect computes what Lib/bisect.py (verified from source) computes',
+               'A-CASE / A-STRORDER for text keys; text order used only as a strict total order (pyvc/strorder.py: abstract '
+               'predicate + ground order axioms, every non-unsat verdict re-asked with the real str.<)',
+               'a blank cell is searched / compared as the number 0 (ExcelCmp), as in C10',
+               'termination: every loop has a variant; bisect_right\'s too']
